@@ -65,8 +65,8 @@ class Monitors:
             r()
 
 
-def observe(graph, starts, kw, stopk):
-    """Runs the real BFS. Returns dict of observed outputs (or {'err': name})."""
+def observe(graph, starts, kw, stopk, container=None):
+    """Runs the real BFS. Returns dict of observed outputs (or {'err': name}).  container: how the start states are handed over (graphs.CONTAINERS / 'list')."""
     import torch
     calls = []
     cb = make_callback(stopk, calls)
@@ -78,7 +78,7 @@ def observe(graph, starts, kw, stopk):
     args.setdefault("max_diameter", 20000)
     args.setdefault("max_layer_size_to_explore", 3 * 10**6)
     try:
-        res = graph.bfs(start_states=[list(s) for s in starts] if starts is not None else None, **args)
+        res = graph.bfs(start_states=G.in_container(container, [list(s) for s in starts]) if starts is not None else None, **args)
     except Exception as ex:  # pylint: disable=broad-except
         name = {"AssertionError": "AssertionErr", "ValueError": "ValueErr", "IndexError": "IndexErr", "KeyError": "KeyErr",
                 "TypeError": "TypeErr", "RuntimeError": "RuntimeErr"}.get(type(ex).__name__, "RuntimeErr")
@@ -92,6 +92,19 @@ def observe(graph, starts, kw, stopk):
         "trace": calls,
     }
     return obs, res
+
+
+def reload_result(res):
+    """The BFS result after BfsResult.save / BfsResult.load (permutation graphs only: that is what saving supports)."""
+    import os, tempfile
+    from cayleypy.algo.bfs_result import BfsResult
+    fd, fn = tempfile.mkstemp(suffix=".h5")
+    os.close(fd)
+    try:
+        res.save(fn)
+        return BfsResult.load(fn)
+    finally:
+        os.unlink(fn)
 
 
 def coq_case(gd, graph, starts, kw, stopk, obs):
